@@ -236,6 +236,10 @@ def run(ctx):
                            "vals": rec["vals"], "codes": rec["codes"], "chunks": rec["chunks"]}, "accepted-but-wrong:" + "+".join(sorted(f[2])),
                           {"expected": f[3], "got": red[f[1]]["out"]})
         ctx.add_traces(len(red), stats, name="TraceReduce(accepted cells)")
+    from . import compose
+
+    # Flox.tla behaviours: a call the composed specification refuses (or accepts) never escapes with an internal error
+    compose.replay(ctx, {"compose:unclean-exception"}, n=800 if ctx.tier == "quick" else 20000)
     ctx.sample({"cell": {k: recs[0][k] for k in ("func", "engine", "reindex", "arrdask", "bydask", "expected", "layout", "shape")}, "outcomes": [o["kind"] for o in recs[0]["out"]]})
     ctx.cov["rule"] = ("cells = 13 reductions x 5 engines x reindex{None,T,F} x array numpy|dask x labels numpy|dask x expected{none,present,absent} x dtype= x 7 layouts "
                        "(interleaved, confined, single block, deeper than split_every, every label everywhere, missing labels, all-missing chunk) x f8|i8 x 1-D|batch|2-D labels with "
